@@ -90,8 +90,9 @@ class C02(Prop):
                   "(C02_order_independent_cartesian_partial); (4) nesting as the CWL translator builds it -- dot( dot(S) or "
                   "cartesian_d(S), Q... ) -- the inner combinator emits what its specification says and the outer one "
                   "broadcasts the tokens of Q to every inner combination, exactly once each, at whatever order the "
-                  "tokens arrive (C02_nested_partial, C02_nested_cartesian_partial; the well-formedness of the list of "
-                  "inner combinations is a hypothesis stated on the specification). Three _refuted theorems exhibit the input classes in which "
+                  "tokens arrive (C02_nested_dot_partial from primitive conditions on the tags; C02_nested_partial, "
+                  "C02_nested_cartesian_partial with the well-formedness of the list of inner combinations as a "
+                  "hypothesis stated on the specification). Three _refuted theorems exhibit the input classes in which "
                   "the faithful model breaks the property text (a tag and its ancestor on one port of a dot product; a "
                   "cartesian combinator with an inner combinator; a cartesian combinator over tokens of different depth). "
                   "NOT proved: several tag levels at one combinator (per-port antichains in general), trees deeper "
